@@ -60,6 +60,8 @@ func Specs() []TypeSpec {
 	assertionOverrides := []map[string]any{
 		{"assertions": map[string]any{"issuers": []any{"iss-b"}}},
 		{"assertions": map[string]any{"audience": []any{"aud-b"}}},
+		{"assertions": map[string]any{"audience": []any{"aud-a aud-b"}}},
+		{"assertions": map[string]any{"audience": []any{"aud-a", "aud-b"}}},
 		{"cache_ttl": "130s"},
 		{"allow_fallback_on_error": true},
 	}
@@ -204,6 +206,8 @@ func Specs() []TypeSpec {
 			Overrides: []map[string]any{
 				{"payload": `{"sub":"{{ .Subject.ID }}","v":"o1"}`},
 				{"forward_headers": []any{"X-Fwd2"}},
+				{"forward_headers": []any{"X-Fwd X-Fwd2"}},
+				{"forward_headers": []any{"X-Fwd", "X-Fwd2"}},
 				{"forward_cookies": []any{"c2"}},
 				{"cache_ttl": "140s"},
 				{"continue_pipeline_on_error": true},
@@ -255,6 +259,9 @@ func Specs() []TypeSpec {
 			},
 			Overrides: []map[string]any{
 				{"scopes": []any{"s-o1"}},
+				// two overrides that print alike although they differ (one scope with a blank / two scopes)
+				{"scopes": []any{"s-o2 s-o3"}},
+				{"scopes": []any{"s-o2", "s-o3"}},
 				{"cache_ttl": "200s"},
 				{"header": map[string]any{"name": "X-Token", "scheme": "Foo"}},
 			},
